@@ -2,6 +2,7 @@ package props
 
 import (
 	"bytes"
+	"compress/gzip"
 	"context"
 	"errors"
 	"fmt"
@@ -9,6 +10,7 @@ import (
 	"net/http"
 	"net/http/httptest"
 	"runtime"
+	"strings"
 	"sync"
 	"testing"
 
@@ -72,6 +74,13 @@ var (
 )
 
 func gzipZeros(n int) []byte { return Gzip(make([]byte, n)) }
+
+// gzipValidMessage compresses a well-formed message whose encoding has a
+// little more than n bytes (so that only the size decides its fate).
+func gzipValidMessage(n int) []byte {
+	b, _ := proto.Marshal(&BV{Value: make([]byte, n)})
+	return Gzip(b)
+}
 
 func c09Check(c *ev.Collector, k c09Case) {
 	tags := []string{"proto=" + k.Proto.String(), "kind=" + k.Kind.String(), map[bool]string{true: "side=client", false: "side=handler"}[k.Client]}
@@ -183,7 +192,7 @@ func c09Check(c *ev.Collector, k c09Case) {
 func c09HostileBody(k c09Case) (body []byte, encoding string, declaredBig bool) {
 	switch k.Hostile {
 	case "gzip-small": // wire <= N < decompressed
-		return gzipZeros(4 * k.N), "gzip", false
+		return gzipValidMessage(4 * k.N), "gzip", false
 	case "gzip-bomb": // decompresses to 32 MiB
 		zerosOnce.Do(func() { zeros32M = gzipZeros(32 << 20) })
 		return zeros32M, "gzip", true
@@ -195,6 +204,16 @@ func c09HostileBody(k c09Case) (body []byte, encoding string, declaredBig bool) 
 		b := refwire.Envelope(0, []byte("0123456789"))
 		copy(b[1:5], []byte{0x04, 0x00, 0x00, 0x00})
 		return b, "", true
+	case "lie-64m-flag02", "lie-64m-flag80", "lie-64m-flag04", "lie-64m-flag03":
+		// the same false length on an envelope whose flag byte carries protocol-specific bits
+		b := refwire.Envelope(0, []byte("0123456789"))
+		var fl int
+		fmt.Sscanf(strings.TrimPrefix(k.Hostile, "lie-64m-flag"), "%x", &fl)
+		b[0] = byte(fl)
+		copy(b[1:5], []byte{0x04, 0x00, 0x00, 0x00})
+		return b, "", true
+	case "shared-option": // wire <= N < decompressed, algorithm registered through an option value shared with other constructors
+		return gzipValidMessage(4 * k.N), "gz2", false
 	case "content-length-lie": // unary Connect: a small valid body announced as 128 MiB
 		b, _ := proto.Marshal(&BV{Value: []byte("tiny")})
 		return b, "", true
@@ -219,7 +238,7 @@ func c09HostileCheck(c *ev.Collector, k c09Case) {
 			return
 		}
 		body = payload
-	case k.Hostile == "lie-huge" || k.Hostile == "lie-64m":
+	case k.Hostile == "lie-huge" || strings.HasPrefix(k.Hostile, "lie-64m"):
 		if unaryConnect {
 			c.Outcome("n/a")
 			return
@@ -230,7 +249,7 @@ func c09HostileCheck(c *ev.Collector, k c09Case) {
 	default:
 		body = refwire.Envelope(1, payload)
 	}
-	if len(body) > k.N && (k.Hostile == "gzip-small") {
+	if len(body) > k.N && (k.Hostile == "gzip-small" || k.Hostile == "shared-option") {
 		c.Outcome("n/a") // wire size already above the limit: covered by the size cases
 		return
 	}
@@ -238,6 +257,15 @@ func c09HostileCheck(c *ev.Collector, k c09Case) {
 	ct := map[Proto]string{PConnect: "application/connect+proto", PGRPC: "application/grpc+proto", PGRPCWeb: "application/grpc-web+proto"}[k.Proto]
 	if unaryConnect {
 		ct = "application/proto"
+	}
+	// a compression option value that several constructors share (C09 "shared-option")
+	var shared []connect.HandlerOption
+	var sharedClient []connect.ClientOption
+	if k.Hostile == "shared-option" {
+		newD := func() connect.Decompressor { return &gzip.Reader{} }
+		newC := func() connect.Compressor { return gzip.NewWriter(io.Discard) }
+		shared = []connect.HandlerOption{connect.WithCompression("gz2", newD, newC)}
+		sharedClient = []connect.ClientOption{connect.WithAcceptCompression("gz2", newD, newC)}
 	}
 	delivered := 0
 	var before, after runtime.MemStats
@@ -255,7 +283,11 @@ func c09HostileCheck(c *ev.Collector, k c09Case) {
 				delivered++
 			}
 			return s.Send(&BV{Value: []byte{1}})
-		}, connect.WithReadMaxBytes(k.N))
+		}, append(shared, connect.WithReadMaxBytes(k.N))...)
+		if k.Hostile == "shared-option" {
+			// the same option value is then applied by constructors without a limit
+			_ = NewHandler(k.Kind, func(context.Context, HStream) error { return nil }, shared...)
+		}
 		req := httptest.NewRequest("POST", "http://mem.test"+Procedure, bytes.NewReader(body))
 		req.ProtoMajor, req.ProtoMinor, req.Proto = 2, 0, "HTTP/2.0"
 		req.Header.Set("Content-Type", ct)
@@ -298,7 +330,10 @@ func c09HostileCheck(c *ev.Collector, k c09Case) {
 			}
 		})
 		tr := &memhttp.Transport{Handler: fake, Proto: 2, SyncCloseReq: true}
-		cl := NewClient(tr, Cfg{Proto: k.Proto, Comp: CompDefault}, connect.WithReadMaxBytes(k.N))
+		cl := NewClient(tr, Cfg{Proto: k.Proto, Comp: CompDefault}, append(sharedClient, connect.WithReadMaxBytes(k.N))...)
+		if k.Hostile == "shared-option" {
+			_ = NewClient(tr, Cfg{Proto: k.Proto, Comp: CompDefault}, sharedClient...)
+		}
 		var res CallResult
 		runtime.ReadMemStats(&before)
 		g = Guarded(func() { res = RunCall(context.Background(), cl, k.Kind, [][]byte{{1}}, nil) }, tr)
@@ -381,7 +416,7 @@ func c09Cases(thorough bool) (normal, hostile []c09Case) {
 				}
 				normal = append(normal, c09Case{Proto: p, Kind: streamKind, Client: client, N: n, Sizes: []int{okSize, 0, okSize}})
 				normal = append(normal, c09Case{Proto: p, Kind: streamKind, Client: client, N: n, Sizes: []int{}})
-				for _, hk := range []string{"gzip-small", "gzip-bomb", "lie-huge", "lie-64m", "content-length-lie"} {
+				for _, hk := range []string{"gzip-small", "gzip-bomb", "lie-huge", "lie-64m", "content-length-lie", "shared-option", "lie-64m-flag02", "lie-64m-flag80", "lie-64m-flag04", "lie-64m-flag03"} {
 					for _, kind := range []Kind{KUnary, streamKind} {
 						hostile = append(hostile, c09Case{Proto: p, Kind: kind, Client: client, N: n, Hostile: hk})
 					}
